@@ -220,6 +220,27 @@ func probeFuncs() []transFunc {
 		"probeRange", "probeMinMax", "probeNamed", "probeAppend", "probeIndexByte", "probeShadow", "probeWhile"} {
 		out = append(out, transFunc{file: "@verif/harness/cmd/zvh/trans_probe.go", name: n, lean: n, calls: stdCalls})
 	}
+	// round 2: struct values, forwarded results, variadic parameters; and on a receiver with recorded intrinsics:
+	// defer, recorded calls in argument position, nil-able values and their equality, calls through function values
+	pf := "@verif/harness/cmd/zvh/trans_probe.go"
+	pairT := map[string]string{"probePair": "struct:probePair"}
+	pairS := map[string][]fieldSpec{"probePair": {{"a", "int"}, {"b", "bytes"}}}
+	out = append(out,
+		transFunc{file: pf, name: "probeTwo", lean: "probeTwo"},
+		transFunc{file: pf, name: "probeStruct", lean: "probeStruct", types: pairT, structs: pairS},
+		transFunc{file: pf, name: "probeForward", lean: "probeForward",
+			calls: map[string]shim{"probeTwo": {kind: "fun", f: "probeTwo", res: []string{"int", "int"}}}},
+		transFunc{file: pf, name: "probeVariadic", lean: "probeVariadic"})
+	recFields := map[string]fieldSpec{"n": {"n", "int"}, "link": {"link", "opt:Tag"}, "other": {"other", "opt:Tag"},
+		"sub": {"sub", "ptr:struct:probePair"}, "fns": {"fns", "[]ProbeFn"}, "#ev": {"ev", "[]Event"}}
+	recCalls := merge(stdCalls, map[string]shim{
+		"recv.note": {kind: "extstmt", f: "probe.note", res: []string{"int"}, trace: "#ev"},
+		"recv.done": {kind: "extstmt", f: "probe.done", trace: "#ev"},
+		"ProbeFn()": {kind: "extstmt", f: "ProbeFn", res: []string{"int"}, trace: "#ev"},
+	})
+	for _, n := range []string{"probeDefer", "probeNilable", "probeFnValues"} {
+		out = append(out, transFunc{file: pf, recv: "probeRec", name: n, lean: n, fields: recFields, types: pairT, structs: pairS, calls: recCalls})
+	}
 	return out
 }
 
